@@ -5,7 +5,12 @@ harness-side property monitors on every history, and a real-thread stress run ju
 import json, os
 from vlib import VERIF
 
-THEOREMS = [l.strip() for l in open(os.path.join(VERIF, "props", "C08.theorems")) if l.strip() and not l.startswith("#")]
+def _names(f):
+    return [l.strip() for l in open(os.path.join(VERIF, "props", f)) if l.strip() and not l.startswith("#")]
+
+THEOREMS = _names("C08.theorems")
+# the topic part of C04 lives on the same model; it is built and audited here too so that it cannot rot
+C04_TOPIC = _names("C04_topic.theorems")
 
 def run(ctx):
     # findings this property knows about; the lead merges them into known_findings.json, until then
@@ -14,7 +19,7 @@ def run(ctx):
     for e in json.load(open(os.path.join(VERIF, "findings", "C08.entries.json"))):
         if e["property"] == ctx.prop and e["signature"] not in have:
             ctx.known.append(e)
-    ctx.lean_obligations("Fv.Props.C08", THEOREMS)
+    ctx.lean_obligations("Fv.Props.C08", THEOREMS + C04_TOPIC, extra_modules=("Fv.Props.C04Topic",))
     drv = ctx.lean_exe("fvdrv_topic")
     h = ctx.cargo_build("topic", "topich")
     ctx.assumptions += [
